@@ -410,6 +410,39 @@ Definition sp_offer_wrong (c : cfg) (st : astate) (nx : N) (v : nat) (k : N) : o
   | None => None
   end.
 
+(** element [i] replaced by [t] *)
+Definition sp_upd (i : nat) (t : N) (xs : list N) : list N := firstn i xs ++ t :: skipn (S i) xs.
+
+(** writing through an element handle: [*handle = new value]; the old value is returned (and destroyed by
+    the caller), nothing else changes *)
+Definition sp_write (c : cfg) (st : astate) (nx : N) (v : nat) (idx : N) : option sres :=
+  match get_a v st with
+  | Some a =>
+      let xs := a_xs a in
+      if idx <? N.of_nat (length xs) then
+        let i := N.to_nat idx in
+        let t := nth i xs 0 in
+        Some (ok_res [t] (drop_ev c t) (set_a v (Some (with_xs a (sp_upd i (tok c nx) xs))) st) (nx + 1))
+      else Some (panic_res PIndex [] st nx)
+  | None => None
+  end.
+
+(** [a[i].swap(b[j])] through two element handles of DIFFERENT vectors: the two values change places *)
+Definition sp_swap (c : cfg) (st : astate) (nx : N) (v1 : nat) (i : N) (v2 : nat) (j : N) : option sres :=
+  if Nat.eqb v1 v2 then None
+  else match get_a v1 st, get_a v2 st with
+       | Some a, Some b =>
+           if negb (i <? N.of_nat (length (a_xs a))) || negb (j <? N.of_nat (length (a_xs b)))
+           then Some (panic_res PIndex [] st nx)
+           else
+             let x := nth (N.to_nat i) (a_xs a) 0 in
+             let y := nth (N.to_nat j) (a_xs b) 0 in
+             Some (ok_res [] []
+                          (set_a v2 (Some (with_xs b (sp_upd (N.to_nat j) x (a_xs b))))
+                                 (set_a v1 (Some (with_xs a (sp_upd (N.to_nat i) y (a_xs a)))) st)) nx)
+       | _, _ => None
+       end.
+
 (** the fragment: by-value or boxed replacement values, all of the right type, honest size hint *)
 Lemma sp_splice_inv c st nx v sb eb pat f rk n wrong_at claimed r :
   sp_splice c st nx v sb eb pat f rk n wrong_at claimed = Some r ->
@@ -449,6 +482,8 @@ Definition spec_step (c : cfg) (st : astate) (nx : N) (o : op) : option sres :=
                sp_offer_wrong c st nx v k
            | _, _ => None
            end
+  | OWrite _ v idx => sp_write c st nx v idx
+  | OSwap pr v1 i v2 j => if pr =? 0 then sp_swap c st nx v1 i v2 j else None
   | ODownWrong v k idx =>
       (* a removal handle whose downcast to another type gives None: the element is destroyed as by a
          dropped handle; reported: type id ok, size, three refused downcasts *)
